@@ -526,7 +526,9 @@ fn ref_parse(bytes: &[u8], closed: bool, head_req: bool) -> Intent {
         }
         let cls: Vec<&String> = hs.iter().filter(|h| h.0 == "content-length").map(|h| &h.1).collect();
         let tes: Vec<&String> = hs.iter().filter(|h| h.0 == "transfer-encoding").map(|h| &h.1).collect();
-        if cls.len() > 1 || tes.len() > 1 || (!cls.is_empty() && !tes.is_empty()) {
+        // RFC 7230 3.3.3 rule 3: a response carrying both Transfer-Encoding and Content-Length is
+        // framed by the transfer coding (chunked overrides the length)
+        if cls.len() > 1 || tes.len() > 1 {
             return Intent::Malformed;
         }
         if head_req || status == 204 || status == 304 {
@@ -1086,6 +1088,37 @@ fn gen_conc(rng: &mut Rng) -> Gen {
     Gen { sc: Scenario { limit, conc: true, reqs, conns }, tags: vec!["family:concurrent".into(), format!("conc:{}over{}", n, limit)] }
 }
 
+/// family I: a response carrying BOTH `Content-Length` and `Transfer-Encoding: chunked` (legal;
+/// chunked wins): both header orders, whole or segmented, CL smaller / equal / larger than the
+/// chunked stream
+fn gen_cl_and_te(rng: &mut Rng, pick: u64) -> Gen {
+    let body = rand_body(rng, 40);
+    let (_, w) = wire(rng, 200, true, &Fr::Chunked, &body, None);
+    let (cl, cl_tag) = match pick % 4 {
+        0 => (body.len(), "cl=body-length"),
+        1 => (w.len(), "cl=stream-length"),
+        2 => (w.len().saturating_sub(rng.range(1, 6) as usize).max(1), "cl<stream"),
+        _ => (w.len() + rng.range(1, 20) as usize, "cl>stream"),
+    };
+    let te_first = (pick / 4) % 2 == 0;
+    let te = format!("{}: {}\r\n", *rng.pick(&["transfer-encoding", "Transfer-Encoding"]), *rng.pick(&["chunked", "Chunked"]));
+    let clh = format!("{}: {}\r\n", *rng.pick(&["content-length", "Content-Length"]), cl);
+    let head = format!("HTTP/1.1 200 OK\r\n{}{}\r\n", if te_first { &te } else { &clh }, if te_first { &clh } else { &te });
+    let all = [head.into_bytes(), w].concat();
+    let mut evs = vec![Ev::W];
+    if (pick / 8) % 2 == 0 {
+        evs.push(d(&all));
+    } else {
+        evs.extend(segs(rng, &all));
+    }
+    evs.push(Ev::W);
+    evs.push(d(OK2));
+    Gen {
+        sc: Scenario { limit: 2, conc: false, reqs: vec![getr(0, false, true), getr(0, false, true)], conns: vec![vec![evs, spare(2), spare(2)]] },
+        tags: vec!["family:cl-and-te".into(), format!("cl-and-te:{cl_tag}"), format!("cl-and-te:{}", if te_first { "te-first" } else { "cl-first" })],
+    }
+}
+
 /// family G: malformed responses (single-point mutations of a valid one)
 fn gen_malformed(rng: &mut Rng) -> Gen {
     let body = rand_body(rng, 24);
@@ -1348,6 +1381,7 @@ fn main() {
                 57..=64 => gen_extra_or_stall(&mut r),
                 65..=71 => gen_two_auth(&mut r),
                 72..=79 => gen_conc(&mut r),
+                80..=87 => gen_cl_and_te(&mut r, i as u64),
                 _ => gen_malformed(&mut r),
             };
             work.push((format!("gen-{i}"), g.sc, g.tags));
